@@ -1,6 +1,6 @@
 (* C02  GMM statistics are responsibility-weighted moments, additive over any split. *)
 From Coq Require Import Reals List Permutation.
-From BLE Require Import Num.InstR Model.GMM Proofs.RLemmas Proofs.GMMLik Proofs.GMMStats.
+From BLE Require Import Num.InstR Model.GMM Proofs.RLemmas Proofs.GMMLik Proofs.GMMStats Proofs.GMMStatsZero.
 Import ListNotations MR.
 Open Scope R_scope.
 
@@ -61,3 +61,16 @@ Print Assumptions C02_add_associative.
 
 Example C02_nonvacuous : rows_ok 2 [[1; 2]; [3; 4]].
 Proof. exact e_step_example_rows. Qed.
+
+(* a fresh (empty) container is the identity of the accumulation: += of any block's statistics into it gives exactly those
+   statistics; an empty block of samples contributes nothing *)
+Theorem C02_accumulating_into_a_fresh_container (nf : nat) (m : MR.gmm) (X : list (list R)) :
+  length (MR.ws m) = length (MR.mus m) -> length (MR.ws m) = length (MR.vars m) -> rows_ok nf X ->
+  MR.stats_add (MR.zero_stats (length (MR.ws m)) nf) (MR.e_step nf m X) = Some (MR.e_step nf m X).
+Proof. exact (accumulate_into_fresh_container nf m X). Qed.
+Print Assumptions C02_accumulating_into_a_fresh_container.
+
+Theorem C02_empty_block_contributes_nothing (nf : nat) (m : MR.gmm) (X : list (list R)) : rows_ok nf X ->
+  MR.stats_add (MR.e_step nf m []) (MR.e_step nf m X) = Some (MR.e_step nf m X).
+Proof. exact (empty_block_contributes_nothing nf m X). Qed.
+Print Assumptions C02_empty_block_contributes_nothing.
